@@ -102,7 +102,7 @@ CHECKS["C06"] = {
     "text": "For every shape and pattern: all five traversals of the structure have the one compressed-column walk shape with val and row_index co-indexed; "
             "the row_index value is used only in row positions and the walk's column only in column positions; the constructors establish the length invariant "
             "(paired pushes per drained triplet, col_start of cols+1); col_start is the exclusive prefix sum of the per-column counts; col_index expands the gaps; "
-            "get and insert share guards and membership test; insert overwrites the matching entry or rebuilds with the same shape; transpose allocates (cols, rows, nnz) and scatters consistently. from_triplets only reorders its input (nothing filters or de-duplicates the list); an early return of scale needs the factor to equal T::one(); transpose is accepted with a running total, a next-free-slot array or counters zeroed in place.",
+            "get and insert share guards and membership test; insert overwrites the matching entry or rebuilds with the same shape; transpose allocates (cols, rows, nnz) and scatters consistently. from_triplets only reorders its input (nothing filters or de-duplicates the list); an early return of scale needs the factor to equal T::one(); transpose is accepted with a running total, a next-free-slot array or counters zeroed in place. No panic guard of from_vecs holds for two equal neighbouring entries of one array (equal consecutive column starts are an empty column).",
     "design_ref": "DESIGN.md §3 C06",
     "note": "from_vecs performs no validation (the property quantifies over well-formed raw arrays). Order-independence and equality with a reference model over all histories are not decided statically.",
     "technique": TECH + "walk-shape/co-indexing/role analysis over the three parallel arrays, paired-push and prefix-sum data-flow patterns, sibling agreement of get/insert",
@@ -162,7 +162,7 @@ CHECKS["C10"] = {
             "literal, a leading coefficient, dominated by a zero/magnitude test, or allow-listed by name with its reason (this found x^2 -> NaN); no numerical decision is taken "
             "by the lexicographic order of complex values (this found the Cardano sign defect: x^3 + 8i -> garbage); the triple-root shortcut needs d0 == 0 && d1 == 0; "
             "the snap-to-real test drops the component that was tested small; the Laguerre fallback step cannot vanish; polishing uses the undeflated "
-            "coefficients; deflation is synthetic division; laguer stops iterating on scale-free tests only (no ordered comparison of a magnitude with a constant).",
+            "coefficients; deflation is synthetic division; laguer stops iterating on scale-free tests only (no ordered comparison of a magnitude with a constant). A Newton-type correction `x - b / q` divides the value accumulator of a Horner sweep by its first-derivative accumulator.",
     "design_ref": "DESIGN.md §3 C10, §18",
     "note": "Accuracy (backward error), finiteness in general, matching with the true roots and convergence of Laguerre's iteration are numerical and not decided statically. "
             "One allow-listed divisor symbol: k in cubic_solve.",
